@@ -11,10 +11,10 @@ import "errors"
 // file-system call the process dies); content class; .evy vs .txtar.
 
 var zzC18Sources = []string{
-	"x := 1\nprint x\n",              // already formatted
-	"x:=1\nprint   x\n\n\n\n",        // parsable, not formatted
-	"func f\nprint 1\n",              // does not parse
-	"",                               // empty
+	"x := 1\nprint x\n",                    // already formatted
+	"x:=1\nprint   x\n\n\n\n",              // parsable, not formatted
+	"func f\nprint 1\n",                    // does not parse
+	"",                                     // empty
 	"// c\nif true\n  print 1 // d\nend\n", // comments, indentation
 }
 
